@@ -75,6 +75,10 @@ func (i ImportNames) TypeName(t types.Type) string {
 	case *types.Basic:
 		return typ.Name()
 	case *types.Named:
+		if typ.Obj().Pkg() == nil {
+			// a universe type such as error belongs to no package.
+			return typ.Obj().Name()
+		}
 		if pkgName, ok := i[typ.Obj().Pkg().Path()]; ok {
 			return fmt.Sprintf("%v.%v", pkgName, typ.Obj().Name())
 		}
@@ -89,6 +93,10 @@ func (i ImportNames) TypeName(t types.Type) string {
 func (i ImportNames) IsExternal(t types.Type) bool {
 	switch typ := DerefPtr(t).(type) {
 	case *types.Named:
+		if typ.Obj().Pkg() == nil {
+			// a universe type such as error belongs to no package.
+			return false
+		}
 		_, ok := i[typ.Obj().Pkg().Path()]
 		return ok
 	default:
